@@ -90,6 +90,7 @@ class Index:
         self.rec_by_name = {}  # qualified name -> record node (the definition)
         self.functions = {}    # qualified name -> list of function nodes with body
         self.enums = {}        # qualified name -> EnumDecl
+        self.enum_consts = {}  # EnumConstantDecl id -> integer value (enums defined in namespace QtLogger)
         self.vars = {}         # name -> VarDecl at namespace scope
         self.fn_by_id = {}
         self.decl_by_id = {}   # every function declaration node by its own id (default arguments live there)
@@ -138,6 +139,20 @@ class Index:
         elif k == 'EnumDecl':
             q = (scope + '::' if scope else '') + (o.get('name') or '')
             self.enums[q] = o
+            nxt = 0
+            for c in o.get('inner', []):
+                if c.get('kind') == 'EnumConstantDecl':
+                    v = None
+                    def find(n):
+                        if isinstance(n, dict):
+                            if n.get('kind') in ('ConstantExpr', 'IntegerLiteral') and 'value' in n: return n['value']
+                            for x in n.get('inner', []):
+                                r = find(x)
+                                if r is not None: return r
+                        return None
+                    v = find({'inner': c.get('inner', [])})
+                    val = int(v) if v is not None else nxt
+                    self.enum_consts[c['id']] = val; nxt = val + 1
         elif k == 'VarDecl' and (top or scope):
             o['_scope'] = scope
             self.vars.setdefault(o.get('name'), o)
